@@ -273,3 +273,498 @@ Proof.
     { unfold urr_script. rewrite E1. cbn [bind urr_run]. rewrite E2. cbn [bind]. rewrite Hr. reflexivity. }
     apply updatable_no_repeat in Hs. cbn [produced] in Hs. rewrite produced_map_Some in Hs. exact Hs.
 Qed.
+
+(* ================================================================== several call sites (round 3) *)
+
+Lemma ref_range_sc_local h name : ref_range_sc h name false = ref_range h name.
+Proof. reflexivity. Qed.
+
+Lemma ref_range_sc_global h name nick table lo hi :
+  ref_range_sc h name true = Ok (nick, table, lo, hi) -> lo = 1.
+Proof.
+  unfold ref_range_sc. destruct (lookupS name (n2t h)) as [t|].
+  - destruct (get0 name (nc h) =? 0); [discriminate|]. intros H. injection H as _ _ <- _.
+    destruct (get0 name (nc h) <? 1); reflexivity.
+  - destruct (lookupZ name (tc h)) as [m|]; [|discriminate].
+    destruct (m =? 0); [discriminate|]. intros H. injection H as _ _ <- _.
+    destruct (m <? 1); reflexivity.
+Qed.
+
+(* the interval is never empty and, for a draw inside it, a unique reference is resolved
+   exactly as a plain one *)
+Lemma unique_target_as_plain h name nick table lo hi d :
+  ref_range_sc h name false = Ok (nick, table, lo, hi) -> lo <= d <= hi ->
+  random_ref h name d = resolve_draw h nick table d.
+Proof.
+  intros H Hd. rewrite ref_range_sc_local in H. unfold random_ref. rewrite H. cbn [bind].
+  assert (E : (lo <=? d) && (d <=? hi) = true) by lia. rewrite E. reflexivity.
+Qed.
+
+Lemma nick_resolve_sound h name t d tbl i :
+  resolve_draw h (Some name) t d = Ok (tbl, i) ->
+  tbl = t /\ exists r, In r (hrows h) /\ h_table r = t /\ h_nick r = Some name /\ h_nid r = d /\ h_id r = i.
+Proof.
+  unfold resolve_draw. destruct (find_nick_row (hrows h) t name d) as [id|] eqn:Hf; [|discriminate].
+  intros H. injection H as <- <-. split; [reflexivity|].
+  destruct (find_nick_row_sound _ _ _ _ _ Hf) as (r & Hin & Ht & Hn & Hd & Hid). exists r. auto.
+Qed.
+
+Lemma Uinv_with_oracle u o prev em : Uinv u prev em -> Uinv (with_oracle u o) prev em.
+Proof. intros [H1 H2 H3 H4 H5 H6 H7 H8]. constructor; assumption. Qed.
+
+(* one next() that yields: bookkeeping of what this range has produced since its window began *)
+Lemma next_step u0 prev em d u1 :
+  Uinv u0 prev em ->
+  Permutation prev (Zseq (u_start u0) (Z.to_nat (u_min u0 - u_start u0))) ->
+  urr_next u0 = Ok (Some d, u1) ->
+  exists prev' em',
+    Uinv u1 prev' em' /\ u_start u1 = u_start u0 /\ u_cur_max u1 = u_cur_max u0 /\
+    Permutation prev' (Zseq (u_start u1) (Z.to_nat (u_min u1 - u_start u1))) /\
+    Permutation (prev' ++ em') ((prev ++ em) ++ [d]) /\
+    ~ In d (prev ++ em) /\ u_start u0 <= d < u_cur_max u0.
+Proof.
+  intros I HP Hn.
+  assert (Hgoal : exists prev' em',
+    Uinv u1 prev' em' /\ u_start u1 = u_start u0 /\ u_cur_max u1 = u_cur_max u0 /\
+    Permutation prev' (Zseq (u_start u1) (Z.to_nat (u_min u1 - u_start u1))) /\
+    Permutation (prev' ++ em') ((prev ++ em) ++ [d])).
+  { destruct (urr_next_inv _ _ _ _ _ I Hn) as
+        [(v & Hv & I1 & Hs & Hm & Hc & _)|[(Hv & _)|(v & Hv & I1 & Hs & Hm & Hc & HPem)]];
+      [injection Hv as <-|discriminate|injection Hv as <-].
+    - exists prev, (em ++ [d]). splits; try assumption.
+      + rewrite Hs, Hm. exact HP.
+      + rewrite app_assoc. apply Permutation_refl.
+    - exists (prev ++ em), [d]. splits; try assumption; [|apply Permutation_refl].
+      rewrite Hs, Hm.
+      pose proof (ui_lo _ _ _ I). pose proof (ui_min _ _ _ I).
+      pose proof (ui_omax _ _ _ I). pose proof (ui_pos _ _ _ I).
+      replace (Z.to_nat (u_orig_max u0 - u_start u0))
+        with (Z.to_nat (u_min u0 - u_start u0) + Z.to_nat (u_orig_max u0 - u_min u0))%nat by lia.
+      rewrite Zseq_app. apply Permutation_app; [assumption|].
+      rewrite Z2Nat.id by lia. replace (u_start u0 + (u_min u0 - u_start u0)) with (u_min u0) by lia.
+      exact HPem. }
+  destruct Hgoal as (prev' & em' & I1 & Hs & Hc & HP1 & HA).
+  exists prev', em'. splits; try assumption.
+  - destruct (Uinv_all _ _ _ I1) as [Hnd _].
+    apply (Permutation_NoDup HA) in Hnd. apply NoDup_remove_2 in Hnd. rewrite app_nil_r in Hnd. exact Hnd.
+  - destruct (Uinv_all _ _ _ I1) as [_ Hall].
+    assert (Hin : In d (prev' ++ em')).
+    { apply (Permutation_in _ (Permutation_sym HA)). apply in_or_app. right. left. reflexivity. }
+    apply Hall in Hin. pose proof (ui_cmax _ _ _ I1). lia.
+  - destruct (Uinv_all _ _ _ I1) as [_ Hall].
+    assert (Hin : In d (prev' ++ em')).
+    { apply (Permutation_in _ (Permutation_sym HA)). apply in_or_app. right. left. reflexivity. }
+    apply Hall in Hin. pose proof (ui_cmax _ _ _ I1). lia.
+Qed.
+
+(* one next() that stops: the whole window [start, cur_max) has been produced *)
+Lemma next_stop u0 prev em u1 :
+  Uinv u0 prev em ->
+  Permutation prev (Zseq (u_start u0) (Z.to_nat (u_min u0 - u_start u0))) ->
+  urr_next u0 = Ok (None, u1) ->
+  Permutation (prev ++ em) (Zseq (u_start u0) (Z.to_nat (u_cur_max u0 - u_start u0))).
+Proof.
+  intros I HP Hn.
+  destruct (urr_next_inv _ _ _ _ _ I Hn) as
+      [(v & Hv & _)|[(_ & _ & _ & _ & _ & _ & Hcm & HPem)|(v & Hv & _)]]; try discriminate.
+  pose proof (ui_lo _ _ _ I). pose proof (ui_min _ _ _ I).
+  pose proof (ui_omax _ _ _ I). pose proof (ui_pos _ _ _ I).
+  rewrite Hcm.
+  replace (Z.to_nat (u_orig_max u0 - u_start u0))
+    with (Z.to_nat (u_min u0 - u_start u0) + Z.to_nat (u_orig_max u0 - u_min u0))%nat by lia.
+  rewrite Zseq_app. apply Permutation_app; [assumption|].
+  rewrite Z2Nat.id by lia. replace (u_start u0 + (u_min u0 - u_start u0)) with (u_min u0) by lia.
+  exact HPem.
+Qed.
+
+(* what a call site has drawn under its current parent row: [s_old] before its range last
+   moved to a disjoint window, [s_cur] in the current window; the current window has been
+   produced without gaps from its start up to [u_min] *)
+Definition SiteInv (st : sitest) : Prop :=
+  match s_ctx st with
+  | None => s_old st = [] /\ s_cur st = []
+  | Some u => exists prev em,
+      Uinv u prev em /\
+      Permutation prev (Zseq (u_start u) (Z.to_nat (u_min u - u_start u))) /\
+      Permutation (s_cur st) (prev ++ em) /\
+      NoDup (s_old st) /\ (forall v, In v (s_old st) -> v < u_start u)
+  end.
+
+Definition SitesInv (ss : sites) : Prop := forall s st, lookupN s ss = Some st -> SiteInv st.
+
+Lemma SitesInv_nil : SitesInv [].
+Proof. intros s st H. discriminate. Qed.
+
+Lemma SiteInv_bounds st u :
+  SiteInv st -> s_ctx st = Some u ->
+  NoDup (s_cur st) /\ (forall v, In v (s_cur st) -> u_start u <= v < u_orig_max u) /\ u_start u < u_orig_max u.
+Proof.
+  unfold SiteInv. intros H E. rewrite E in H. destruct H as (prev & em & I & HP & HC & _).
+  destruct (Uinv_all _ _ _ I) as [Hnd Hall]. splits.
+  - apply (Permutation_NoDup (Permutation_sym HC)). exact Hnd.
+  - intros v Hv. apply Hall. apply (Permutation_in _ HC). exact Hv.
+  - pose proof (ui_lo _ _ _ I). pose proof (ui_min _ _ _ I).
+    pose proof (ui_omax _ _ _ I). pose proof (ui_pos _ _ _ I). lia.
+Qed.
+
+Lemma SiteInv_nodup st : SiteInv st -> NoDup (s_old st ++ s_cur st).
+Proof.
+  intros H. destruct (s_ctx st) as [u|] eqn:E.
+  - destruct (SiteInv_bounds _ _ H E) as (Hnd & Hr & _).
+    unfold SiteInv in H. rewrite E in H. destruct H as (prev & em & _ & _ & _ & Hno & Hlt).
+    apply NoDup_app_intro; [assumption|assumption|].
+    intros x Hx Hx'. apply Hlt in Hx. apply Hr in Hx'. lia.
+  - unfold SiteInv in H. rewrite E in H. destruct H as [-> ->]. constructor.
+Qed.
+
+Lemma lookupN_assign_same k v l : lookupN k (assignN k v l) = Some v.
+Proof.
+  induction l as [|[k' v'] r IH]; cbn [assignN lookupN].
+  - rewrite Z.eqb_refl. reflexivity.
+  - destruct (k =? k') eqn:E; cbn [lookupN]; rewrite ?Z.eqb_refl, ?E; auto.
+Qed.
+
+Lemma lookupN_assign_other k k2 v l : k2 <> k -> lookupN k2 (assignN k v l) = lookupN k2 l.
+Proof.
+  intros Hne. induction l as [|[k' v'] r IH]; cbn [assignN lookupN].
+  - destruct (k2 =? k) eqn:E; [lia|reflexivity].
+  - destruct (k =? k') eqn:E; cbn [lookupN].
+    + assert (k' = k) by lia. subst k'. destruct (k2 =? k) eqn:E2; [lia|reflexivity].
+    + destruct (k2 =? k'); auto.
+Qed.
+
+Lemma site_get_inv ss s p : SitesInv ss -> SiteInv (site_get ss s p).
+Proof.
+  intros H. unfold site_get. destruct (lookupN s ss) as [st|] eqn:E.
+  - destruct (s_parent st =? p); [exact (H _ _ E)|split; reflexivity].
+  - split; reflexivity.
+Qed.
+
+Lemma site_get_parent ss s p : s_parent (site_get ss s p) = p.
+Proof.
+  unfold site_get. destruct (lookupN s ss) as [st|]; [|reflexivity].
+  destruct (s_parent st =? p) eqn:E; [lia|reflexivity].
+Qed.
+
+(* the step of one unique draw, seen from the call site that makes it *)
+Lemma draw_ok st p po lo hi d u1 :
+  SiteInv st ->
+  unique_draw (option_map (fun u => with_oracle u po) (s_ctx st)) lo hi po = Ok (d, u1) ->
+  lo <= d <= hi /\ ~ In d (s_old st ++ s_cur st) /\
+  SiteInv (if uref_moves (s_ctx st) lo
+           then mkSite p (Some u1) (s_old st ++ s_cur st) [d]
+           else mkSite p (Some u1) (s_old st) (s_cur st ++ [d])).
+Proof.
+  intros HS H. unfold unique_draw in H.
+  destruct (s_ctx st) as [u|] eqn:Ec; cbn [option_map uref_moves] in *.
+  - (* the site has a range *)
+    destruct (SiteInv_bounds _ _ HS Ec) as (Hcnd & Hcr & Hne).
+    unfold SiteInv in HS. rewrite Ec in HS. destruct HS as (prev & em & I & HP & HC & Hno & Hlt).
+    destruct (urr_set_new_range (with_oracle u po) lo (hi + 1)) as [u0|e] eqn:Es; [|discriminate].
+    cbn [bind] in H.
+    destruct (urr_next u0) as [[v u2]|e] eqn:En; [|discriminate]. cbn [bind] in H.
+    destruct v as [x|]; [|discriminate]. injection H as -> ->.
+    destruct (urr_set_inv _ _ _ _ _ _ (Uinv_with_oracle u po _ _ I) Es) as
+        [(Hlo & I0 & Hs0 & Hm0 & Hc0 & _)|(Hne0 & Hle & I0 & Hs0 & Hm0 & Hc0)];
+      change (u_start (with_oracle u po)) with (u_start u) in *;
+      change (u_min (with_oracle u po)) with (u_min u) in *;
+      change (u_orig_max (with_oracle u po)) with (u_orig_max u) in *.
+    + (* same lower bound: the window is extended *)
+      assert (E : (lo =? u_start u) = true) by lia. rewrite E. cbn [negb].
+      assert (HP0 : Permutation prev (Zseq (u_start u0) (Z.to_nat (u_min u0 - u_start u0))))
+        by (rewrite Hs0, Hm0; exact HP).
+      destruct (next_step _ _ _ _ _ I0 HP0 En) as (prev' & em' & I1 & Hs1 & Hc1 & HP1 & HA & Hnin & Hrange).
+      splits; [lia|lia| |].
+      * intros Hin. apply in_app_or in Hin. destruct Hin as [Hin|Hin].
+        -- apply Hlt in Hin. lia.
+        -- apply Hnin. apply (Permutation_in _ HC). exact Hin.
+      * unfold SiteInv. cbn [s_ctx s_old s_cur]. exists prev', em'. splits; try assumption.
+        -- apply (Permutation_trans (Permutation_app_tail [d] HC)). apply Permutation_sym. exact HA.
+        -- intros v Hv. apply Hlt in Hv. lia.
+    + (* another lower bound: the window moves above everything produced so far *)
+      assert (E : (lo =? u_start u) = false) by lia. rewrite E. cbn [negb].
+      assert (HP0 : Permutation [] (Zseq (u_start u0) (Z.to_nat (u_min u0 - u_start u0)))).
+      { rewrite Hs0, Hm0. replace (lo - lo) with 0 by lia. constructor. }
+      destruct (next_step _ _ _ _ _ I0 HP0 En) as (prev' & em' & I1 & Hs1 & Hc1 & HP1 & HA & Hnin & Hrange).
+      cbn [app] in HA.
+      assert (Hbelow : forall v, In v (s_old st ++ s_cur st) -> v < lo).
+      { intros v Hv. apply in_app_or in Hv. destruct Hv as [Hv|Hv].
+        - apply Hlt in Hv. lia.
+        - apply Hcr in Hv. lia. }
+      splits; [lia|lia| |].
+      * intros Hin. apply Hbelow in Hin. lia.
+      * unfold SiteInv. cbn [s_ctx s_old s_cur]. exists prev', em'. splits; try assumption.
+        -- apply Permutation_sym. exact HA.
+        -- apply NoDup_app_intro; [assumption|assumption|].
+           intros x Hx Hx'. apply Hlt in Hx. apply Hcr in Hx'. lia.
+        -- intros v Hv. apply Hbelow in Hv. lia.
+  - (* first use (or first use under a new parent row): a fresh range *)
+    unfold SiteInv in HS. rewrite Ec in HS. destruct HS as [Ho Hc]. rewrite Ho, Hc. cbn [app].
+    destruct (urr_init lo (hi + 1) po) as [u0|e] eqn:Ei; [|discriminate]. cbn [bind] in H.
+    destruct (urr_next u0) as [[v u2]|e] eqn:En; [|discriminate]. cbn [bind] in H.
+    destruct v as [x|]; [|discriminate]. injection H as -> ->.
+    destruct (urr_init_inv _ _ _ _ Ei) as (I0 & Hs0 & Hm0 & Hc0).
+    assert (HP0 : Permutation [] (Zseq (u_start u0) (Z.to_nat (u_min u0 - u_start u0)))).
+    { rewrite Hs0, Hm0. replace (lo - lo) with 0 by lia. constructor. }
+    destruct (next_step _ _ _ _ _ I0 HP0 En) as (prev' & em' & I1 & Hs1 & Hc1 & HP1 & HA & Hnin & Hrange).
+    cbn [app] in HA.
+    splits; [lia|lia|intros []|].
+    unfold SiteInv. cbn [s_ctx s_old s_cur]. exists prev', em'. splits; try assumption.
+    + apply Permutation_sym. exact HA.
+    + constructor.
+    + intros v [].
+Qed.
+
+(* the errors of the range object are never a DataGenError *)
+Definition is_dge (e : err) : bool := match e with DGE _ => true | _ => false end.
+
+Lemma gen_next_err fuel : forall g e, gen_next fuel g = Err e -> is_dge e = false.
+Proof.
+  induction fuel as [|n IH]; intros g e H; cbn [gen_next] in H.
+  - injection H as <-. reflexivity.
+  - destruct (g_found g <? g_size g); [|discriminate].
+    destruct (g_value g <? g_size g); [discriminate|]. exact (IH _ _ H).
+Qed.
+
+Lemma new_gen_err a b v o e : new_gen a b v o = Err e -> is_dge e = false.
+Proof.
+  unfold new_gen. destruct (b - a <? 0); [intros H; injection H as <-; reflexivity|].
+  destruct (negb _); [intros H; injection H as <-; reflexivity|discriminate].
+Qed.
+
+Lemma urr_next_err u e : urr_next u = Err e -> is_dge e = false.
+Proof.
+  unfold urr_next, force. intros H.
+  destruct (u_gen u) as [a b|g].
+  - destruct (u_oracle u) as [|[v0 o0] rest]; [injection H as <-; reflexivity|].
+    destruct (new_gen a b v0 o0) as [g1|e1] eqn:Hn; cbn [bind] in H;
+      [|injection H as <-; exact (new_gen_err _ _ _ _ _ Hn)].
+    destruct (gen_next (gen_fuel g1) g1) as [[[v g']|]|e1] eqn:Hg; cbn [bind] in H;
+      [discriminate| |injection H as <-; exact (gen_next_err _ _ _ Hg)].
+    destruct (u_cur_max u <=? u_orig_max u); [discriminate|].
+    destruct rest as [|[v1 o1] rest']; [injection H as <-; reflexivity|].
+    destruct (new_gen (u_orig_max u) (u_cur_max u) v1 o1) as [g2|e2] eqn:Hn2; cbn [bind] in H;
+      [|injection H as <-; exact (new_gen_err _ _ _ _ _ Hn2)].
+    destruct (gen_next (gen_fuel g2) g2) as [[[v g']|]|e2] eqn:Hg2; cbn [bind] in H;
+      [discriminate|discriminate|injection H as <-; exact (gen_next_err _ _ _ Hg2)].
+  - cbn [bind] in H.
+    destruct (gen_next (gen_fuel g) g) as [[[v g']|]|e1] eqn:Hg; cbn [bind] in H;
+      [discriminate| |injection H as <-; exact (gen_next_err _ _ _ Hg)].
+    destruct (u_cur_max u <=? u_orig_max u); [discriminate|].
+    destruct (u_oracle u) as [|[v1 o1] rest']; [injection H as <-; reflexivity|].
+    destruct (new_gen (u_orig_max u) (u_cur_max u) v1 o1) as [g2|e2] eqn:Hn2; cbn [bind] in H;
+      [|injection H as <-; exact (new_gen_err _ _ _ _ _ Hn2)].
+    destruct (gen_next (gen_fuel g2) g2) as [[[v g']|]|e2] eqn:Hg2; cbn [bind] in H;
+      [discriminate|discriminate|injection H as <-; exact (gen_next_err _ _ _ Hg2)].
+Qed.
+
+Lemma urr_set_err u a b e : urr_set_new_range u a b = Err e -> is_dge e = false.
+Proof.
+  unfold urr_set_new_range, set_immediately, assertion.
+  repeat match goal with |- context [if ?c then _ else _] => destruct c end;
+    intros H; try discriminate; injection H as <-; reflexivity.
+Qed.
+
+Lemma urr_init_err a b o e : urr_init a b o = Err e -> is_dge e = false.
+Proof.
+  unfold urr_init, set_immediately, assertion.
+  repeat match goal with |- context [if ?c then _ else _] => destruct c end;
+    intros H; try discriminate; injection H as <-; reflexivity.
+Qed.
+
+(* a refusal ("Cannot find an unused ...") happens only when this site has itself produced
+   every number of the interval it asks for, in its current window *)
+Lemma draw_refused st po lo hi :
+  SiteInv st ->
+  unique_draw (option_map (fun u => with_oracle u po) (s_ctx st)) lo hi po = Err (DGE "no-unused-target") ->
+  Permutation (s_cur st) (Zseq lo (Z.to_nat (hi + 1 - lo))).
+Proof.
+  intros HS H. unfold unique_draw in H.
+  assert (Hfresh : forall u0 u2, Uinv u0 [] [] -> u_min u0 = u_start u0 ->
+                    urr_next u0 = Ok (None, u2) -> False).
+  { intros u0 u2 I0 Hm En.
+    assert (HP0 : Permutation [] (Zseq (u_start u0) (Z.to_nat (u_min u0 - u_start u0)))).
+    { rewrite Hm. replace (u_start u0 - u_start u0) with 0 by lia. constructor. }
+    pose proof (next_stop _ _ _ _ I0 HP0 En) as HPe. cbn [app] in HPe.
+    apply Permutation_length in HPe. rewrite Zseq_length in HPe. cbn [length] in HPe.
+    pose proof (ui_lo _ _ _ I0). pose proof (ui_min _ _ _ I0). pose proof (ui_cmax _ _ _ I0).
+    pose proof (ui_omax _ _ _ I0). pose proof (ui_pos _ _ _ I0). lia. }
+  destruct (s_ctx st) as [u|] eqn:Ec; cbn [option_map] in *.
+  - unfold SiteInv in HS. rewrite Ec in HS. destruct HS as (prev & em & I & HP & HC & Hno & Hlt).
+    destruct (urr_set_new_range (with_oracle u po) lo (hi + 1)) as [u0|e] eqn:Es; cbn [bind] in H.
+    2:{ injection H as ->. apply urr_set_err in Es. discriminate. }
+    destruct (urr_next u0) as [[v u2]|e] eqn:En; cbn [bind] in H.
+    2:{ injection H as ->. apply urr_next_err in En. discriminate. }
+    destruct v as [x|]; [discriminate|].
+    destruct (urr_set_inv _ _ _ _ _ _ (Uinv_with_oracle u po _ _ I) Es) as
+        [(Hlo & I0 & Hs0 & Hm0 & Hc0 & _)|(Hne0 & Hle & I0 & Hs0 & Hm0 & Hc0)];
+      change (u_start (with_oracle u po)) with (u_start u) in *;
+      change (u_min (with_oracle u po)) with (u_min u) in *;
+      change (u_orig_max (with_oracle u po)) with (u_orig_max u) in *.
+    + assert (HP0 : Permutation prev (Zseq (u_start u0) (Z.to_nat (u_min u0 - u_start u0))))
+        by (rewrite Hs0, Hm0; exact HP).
+      pose proof (next_stop _ _ _ _ I0 HP0 En) as HPe. rewrite Hs0, Hc0, <- Hlo in HPe.
+      exact (Permutation_trans HC HPe).
+    + exfalso. apply (Hfresh u0 u2 I0); [lia|exact En].
+  - destruct (urr_init lo (hi + 1) po) as [u0|e] eqn:Ei; cbn [bind] in H.
+    2:{ injection H as ->. apply urr_init_err in Ei. discriminate. }
+    destruct (urr_next u0) as [[v u2]|e] eqn:En; cbn [bind] in H.
+    2:{ injection H as ->. apply urr_next_err in En. discriminate. }
+    destruct v as [x|]; [discriminate|].
+    destruct (urr_init_inv _ _ _ _ Ei) as (I0 & Hs0 & Hm0 & Hc0).
+    exfalso. apply (Hfresh u0 u2 I0); [lia|exact En].
+Qed.
+
+Lemma mstep_uref_range h ss orc s p name glob r :
+  mstep_uref h ss orc s p name glob = Ok r ->
+  exists nick table lo hi, ref_range_sc h name glob = Ok (nick, table, lo, hi).
+Proof.
+  unfold mstep_uref. destruct (ref_range_sc h name glob) as [[[[nick table] lo] hi]|e]; [|discriminate].
+  intros _. eauto.
+Qed.
+
+(* One unique reference evaluated at call site s under parent row p: the number it draws lies
+   in the interval the row history asks for NOW, was never drawn by this call site under this
+   parent row before, is recorded for this site, and no other call site is touched. *)
+Theorem site_step h ss orc s p name glob nick table lo hi t i ss' orc' :
+  SitesInv ss ->
+  ref_range_sc h name glob = Ok (nick, table, lo, hi) ->
+  mstep_uref h ss orc s p name glob = Ok (t, i, ss', orc') ->
+  exists d st',
+    lo <= d <= hi /\ resolve_draw h nick table d = Ok (t, i) /\
+    ~ In d (s_old (site_get ss s p) ++ s_cur (site_get ss s p)) /\
+    lookupN s ss' = Some st' /\ s_parent st' = p /\
+    s_old st' ++ s_cur st' = (s_old (site_get ss s p) ++ s_cur (site_get ss s p)) ++ [d] /\
+    (forall s', s' <> s -> lookupN s' ss' = lookupN s' ss) /\
+    SitesInv ss'.
+Proof.
+  intros HI Hr H. unfold mstep_uref in H. rewrite Hr in H. cbn [bind] in H.
+  set (st := site_get ss s p) in *.
+  destruct (unique_draw (option_map (fun u => with_oracle u (pair_up orc)) (s_ctx st)) lo hi (pair_up orc))
+    as [[d u1]|e] eqn:Ed; [|discriminate]. cbn [bind] in H.
+  destruct (resolve_draw h nick table d) as [r|e] eqn:Er; [|discriminate]. cbn [bind] in H.
+  injection H as -> <- _.
+  destruct (draw_ok st p _ _ _ _ _ (site_get_inv ss s p HI) Ed) as (Hd & Hnin & HS).
+  set (st' := if uref_moves (s_ctx st) lo
+              then mkSite p (Some u1) (s_old st ++ s_cur st) [d]
+              else mkSite p (Some u1) (s_old st) (s_cur st ++ [d])) in *.
+  exists d, st'. split; [exact Hd|]. split; [exact Er|]. split; [exact Hnin|].
+  split; [|split; [|split; [|split]]].
+  - apply lookupN_assign_same.
+  - unfold st'. destruct (uref_moves (s_ctx st) lo); reflexivity.
+  - unfold st'. destruct (uref_moves (s_ctx st) lo); cbn [s_old s_cur]; [reflexivity|apply app_assoc].
+  - intros s' Hne. apply lookupN_assign_other. exact Hne.
+  - intros s0 st0 Hl. destruct (Z.eq_dec s0 s) as [->|Hne].
+    + rewrite lookupN_assign_same in Hl. injection Hl as <-. exact HS.
+    + rewrite lookupN_assign_other in Hl by exact Hne. exact (HI _ _ Hl).
+Qed.
+
+(* "Cannot find an unused ..." is raised at a call site only when that very call site, under
+   the current parent row and in its current window, has used EVERY number of the interval *)
+Theorem site_refused h ss orc s p name glob nick table lo hi :
+  SitesInv ss ->
+  ref_range_sc h name glob = Ok (nick, table, lo, hi) ->
+  mstep_uref h ss orc s p name glob = Err (DGE "no-unused-target") ->
+  Permutation (s_cur (site_get ss s p)) (Zseq lo (Z.to_nat (hi + 1 - lo))).
+Proof.
+  intros HI Hr H. unfold mstep_uref in H. rewrite Hr in H. cbn [bind] in H.
+  set (st := site_get ss s p) in *.
+  destruct (unique_draw (option_map (fun u => with_oracle u (pair_up orc)) (s_ctx st)) lo hi (pair_up orc))
+    as [[d u1]|e] eqn:Ed; cbn [bind] in H.
+  - destruct (resolve_draw h nick table d) as [r|e] eqn:Er; cbn [bind] in H; [discriminate|].
+    exfalso. unfold resolve_draw in Er. destruct nick as [n|]; [|discriminate].
+    destruct (find_nick_row (hrows h) table n d); [discriminate|]. congruence.
+  - injection H as ->. exact (draw_refused st _ _ _ (site_get_inv ss s p HI) Ed).
+Qed.
+
+(* the invariant holds along every run of every script *)
+Lemma mstep_inv m op o m1 :
+  SitesInv (m_sites m) -> mstep m op = (o, Some m1) -> SitesInv (m_sites m1).
+Proof.
+  intros HI H. destruct op as [t n i| |name glob|s p name glob]; cbn [mstep] in H.
+  - injection H as _ <-. exact HI.
+  - injection H as _ <-. exact HI.
+  - destruct (mstep_ref (m_h m) name glob (m_orc m)) as [res orc']. injection H as _ <-. exact HI.
+  - destruct (mstep_uref (m_h m) (m_sites m) (m_orc m) s p name glob) as [[[[t i] ss'] orc']|e] eqn:E;
+      [|discriminate].
+    injection H as _ <-. cbn [m_sites].
+    destruct (mstep_uref_range _ _ _ _ _ _ _ _ E) as (nick & table & lo & hi & Hr).
+    destruct (site_step _ _ _ _ _ _ _ _ _ _ _ _ _ _ _ HI Hr E) as (d & st' & _ & _ & _ & _ & _ & _ & _ & HI').
+    exact HI'.
+Qed.
+
+Theorem mrun_inv ops : forall m, SitesInv (m_sites m) -> SitesInv (m_sites (snd (mrun m ops))).
+Proof.
+  induction ops as [|op ops IH]; intros m HI; cbn [mrun]; [exact HI|].
+  destruct (mstep m op) as [o [m1|]] eqn:E; [|exact HI].
+  specialize (IH m1 (mstep_inv _ _ _ _ HI E)).
+  destruct (mrun m1 ops) as [os m2]. exact IH.
+Qed.
+
+(* whatever the script and the draws: at the end no call site has drawn a number twice under
+   its current parent row *)
+Theorem sites_never_repeat counters names orc ops s st :
+  lookupN s (m_sites (snd (mrun (mkM (rh_init counters names) [] orc) ops))) = Some st ->
+  NoDup (s_old st ++ s_cur st).
+Proof.
+  intros H. apply SiteInv_nodup.
+  exact (mrun_inv ops (mkM (rh_init counters names) [] orc) SitesInv_nil _ _ H).
+Qed.
+
+(* the outcome at a call site is a function of the row history, of THAT site's entry and of
+   the random stream: the entries of other call sites are neither read nor (site_step) written *)
+Theorem site_outcome_local h ss1 ss2 orc s p name glob :
+  site_get ss1 s p = site_get ss2 s p ->
+  match mstep_uref h ss1 orc s p name glob, mstep_uref h ss2 orc s p name glob with
+  | Ok (r1, ss1', o1), Ok (r2, ss2', o2) => r1 = r2 /\ o1 = o2 /\ lookupN s ss1' = lookupN s ss2'
+  | Err e1, Err e2 => e1 = e2
+  | _, _ => False
+  end.
+Proof.
+  intros H. unfold mstep_uref. rewrite H.
+  destruct (ref_range_sc h name glob) as [[[[nick table] lo] hi]|e]; cbn [bind]; [|reflexivity].
+  destruct (unique_draw _ lo hi (pair_up orc)) as [[d u1]|e]; cbn [bind]; [|reflexivity].
+  destruct (resolve_draw h nick table d) as [r|e]; cbn [bind]; [|reflexivity].
+  split; [reflexivity|]. split; [reflexivity|]. rewrite !lookupN_assign_same. reflexivity.
+Qed.
+
+(* ------------------------------------------------------------------ numbers and rows *)
+
+(* the history never holds two rows with the same table and id (sqlite: id ... UNIQUE) *)
+Definition IdsUnique (h : rh) : Prop :=
+  forall r1 r2, In r1 (hrows h) -> In r2 (hrows h) ->
+    h_table r1 = h_table r2 -> h_id r1 = h_id r2 -> r1 = r2.
+
+Lemma IdsUnique_init counters names : IdsUnique (rh_init counters names).
+Proof. intros r1 r2 []. Qed.
+
+Lemma IdsUnique_reset h : IdsUnique h -> IdsUnique (reset_locals h).
+Proof. intros H. exact H. Qed.
+
+Lemma IdsUnique_save h t n i :
+  IdsUnique h -> (forall r, In r (hrows h) -> h_table r = t -> h_id r <> i) ->
+  IdsUnique (save_row h t n i).
+Proof.
+  intros HU Hfresh r1 r2 H1 H2 Ht Hi.
+  assert (Hrows : exists r0, hrows (save_row h t n i) = hrows h ++ [r0] /\ h_table r0 = t /\ h_id r0 = i).
+  { unfold save_row. destruct n; cbn [hrows]; eexists; (split; [reflexivity|split; reflexivity]). }
+  destruct Hrows as (r0 & E & Ht0 & Hi0). rewrite E in H1, H2.
+  apply in_app_or in H1. apply in_app_or in H2.
+  destruct H1 as [H1|[<-|[]]]; destruct H2 as [H2|[<-|[]]].
+  - exact (HU _ _ H1 H2 Ht Hi).
+  - exfalso. apply (Hfresh r1 H1); congruence.
+  - exfalso. apply (Hfresh r2 H2); congruence.
+  - reflexivity.
+Qed.
+
+(* by nickname: two different numbers never name the same row, so "no number twice" is
+   "no row twice" (by table name the row id IS the number) *)
+Theorem nick_numbers_name_distinct_rows h n t d1 d2 tbl i :
+  IdsUnique h ->
+  resolve_draw h (Some n) t d1 = Ok (tbl, i) -> resolve_draw h (Some n) t d2 = Ok (tbl, i) -> d1 = d2.
+Proof.
+  intros HU H1 H2.
+  destruct (nick_resolve_sound _ _ _ _ _ _ H1) as (_ & r1 & Hin1 & Ht1 & _ & Hd1 & Hi1).
+  destruct (nick_resolve_sound _ _ _ _ _ _ H2) as (_ & r2 & Hin2 & Ht2 & _ & Hd2 & Hi2).
+  assert (r1 = r2) by (apply HU; congruence). subst r2. congruence.
+Qed.
